@@ -1,0 +1,58 @@
+//go:build verif
+
+// Contracts for the deductive verification in /verif (comment-only).
+package app
+
+// ---- symbols of the sdk.Tx summaries (govc/summ_goat.go): getters are uninterpreted functions of the tx value
+//@ smt (declare-fun ctxExecMode () Int)
+//@ smt (declare-fun txMemo (Int) Bytes)
+//@ smt (declare-fun txTimeoutHeight (Int) Int)
+//@ smt (declare-fun txSigners (Int) Slc_Bytes)
+//@ smt (declare-fun txSignersErr (Int) Int)
+//@ smt (define-fun txSignerCount ((t Int)) Int (len_Slc_Bytes (txSigners t)))
+//@ smt (define-fun txSignerAt ((t Int) (i Int)) Bytes (select (arr_Slc_Bytes (txSigners t)) (+ (off_Slc_Bytes (txSigners t)) i)))
+//@ smt (declare-fun txMsgs (Int) Slc_Int)
+//@ smt (declare-fun txMsgsV2 (Int) Slc_Int)
+//@ smt (declare-fun txMsgsV2Err (Int) Int)
+//@ smt (define-fun txMsgCount ((t Int)) Int (len_Slc_Int (txMsgsV2 t)))
+//@ smt (define-fun txMsgAt ((t Int) (i Int)) Int (select (arr_Slc_Int (txMsgsV2 t)) (+ (off_Slc_Int (txMsgsV2 t)) i)))
+// full protobuf name of a message: msg.ProtoReflect().Descriptor().FullName()
+//@ smt (declare-fun msgFullName (Int) Bytes)
+
+// ---- C10: only relayer-proposer bridge/relayer messages and the block message can run -----------------------
+// Execution modes (sdk.ExecMode): 0 check, 1 recheck, 3 prepare proposal, 4 process proposal, 7 finalize.
+//@ func (GoatGuardHandler).AnteHandle
+//@ property C10
+//@ requires height: blockheight() >= 0
+//@ ensures no_memo: err == nil ==> len(txMemo(tx)) == 0
+//@ ensures one_signer: err == nil ==> txSignersErr(tx) == 0 && txSignerCount(tx) == 1
+//@ ensures timeout: err == nil ==> txTimeoutHeight(tx) == 0 || txTimeoutHeight(tx) >= blockheight()
+//@ ensures mempool: err == nil && (ctxExecMode() == 0 || ctxExecMode() == 1 || ctxExecMode() == 3) ==>
+//@           forall(i, 0, txMsgCount(tx),
+//@             (bprefix("goat.bitcoin.", msgFullName(txMsgAt(tx, i))) || bprefix("goat.relayer.", msgFullName(txMsgAt(tx, i))))
+//@             && has(st.relayer.Relayer) && txSignerAt(tx, 0) == addrDecode(st.relayer.Relayer.Proposer))
+//@ ensures block: err == nil && (ctxExecMode() == 4 || ctxExecMode() == 7) ==>
+//@           forall(i, 0, txMsgCount(tx),
+//@             (msgFullName(txMsgAt(tx, i)) == "goat.goat.v1.MsgNewEthBlock" && txTimeoutHeight(tx) == blockheight())
+//@             || ((bprefix("goat.bitcoin.", msgFullName(txMsgAt(tx, i))) || bprefix("goat.relayer.", msgFullName(txMsgAt(tx, i))))
+//@                 && has(st.relayer.Relayer) && txSignerAt(tx, 0) == addrDecode(st.relayer.Relayer.Proposer)))
+//@ loop 0 invariant idx: -1 <= rangeindex && rangeindex < txMsgCount(tx)
+//@ loop 0 invariant mempool: (ctxExecMode() == 0 || ctxExecMode() == 1 || ctxExecMode() == 3) ==>
+//@           forall(i, 0, rangeindex + 1,
+//@             (bprefix("goat.bitcoin.", msgFullName(txMsgAt(tx, i))) || bprefix("goat.relayer.", msgFullName(txMsgAt(tx, i))))
+//@             && has(st.relayer.Relayer) && txSignerAt(tx, 0) == addrDecode(st.relayer.Relayer.Proposer))
+//@ loop 0 invariant block: (ctxExecMode() == 4 || ctxExecMode() == 7) ==>
+//@           forall(i, 0, rangeindex + 1,
+//@             (msgFullName(txMsgAt(tx, i)) == "goat.goat.v1.MsgNewEthBlock" && txTimeoutHeight(tx) == blockheight())
+//@             || ((bprefix("goat.bitcoin.", msgFullName(txMsgAt(tx, i))) || bprefix("goat.relayer.", msgFullName(txMsgAt(tx, i))))
+//@                 && has(st.relayer.Relayer) && txSignerAt(tx, 0) == addrDecode(st.relayer.Relayer.Proposer)))
+//@ modifies nothing
+
+// The ante chain is assembled from SDK decorators (set-up, GUARD, validate-basic, set-pubkey, signature
+// verification, sequence increment); their behaviour is dependency code and is not verified here. What is
+// checked: with both keepers present the constructor cannot panic (it panics, at start-up only, without them).
+//@ func NewAnteHandler
+//@ property C10 C19
+//@ requires keepers: accKeeper != nil && relayerKeeper != nil
+//@ modifies signModeHandler
+//@ nopanic
